@@ -53,6 +53,13 @@ func (s *kvStore) apply(ops []Operation) {
 	s.mu.Lock()
 	defer s.mu.Unlock()
 	for _, op := range ops {
+		// An older operation (e.g. late feedback for a previous version of the key) must
+		// not displace a newer one, which would otherwise silently stop being gossiped.
+		if cur, ok := s.data[string(op.Key)]; ok &&
+			(cur.Version.NewerThan(op.Version) ||
+				(cur.Version.EqualTo(op.Version) && cur.Leaseholder > op.Leaseholder)) {
+			continue
+		}
 		s.data[string(op.Key)] = op
 	}
 }
